@@ -2,11 +2,13 @@ import LLRP.Model.Negotiate
 import LLRP.Proofs.WriteSide
 import LLRP.Gen.Schema
 import LLRP.Gen.Consts
+import LLRP.Proofs.SeqNegotiate
 /-!
 # C06 — Version negotiation settles on min(client max, reader max) and sticks to it
 
-Theorems are about the hand-written negotiation model (`LLRP.negotiate`, tied to `Client.negotiate` /
-`getSupportedVersion` by the scripted-peer correspondence) composed with the write-side fold `wr` (header versions),
+Theorems are about the negotiation model (`LLRP.negotiate`; proved equal to go2seq's translation of `Client.negotiate` /
+`getSupportedVersion` / `isResponseTo` from reader.go and messages.go — `src_negotiate` — and tied to the real code by the
+scripted-peer correspondence) composed with the write-side fold `wr` (header versions),
 and about the codec model over the table regenerated from `messages.yaml` (`Gen.schema`): the one-byte payload the
 hand-written `negotiate()` puts into SetProtocolVersion must denote the negotiated version under the generated codec,
 and a reader's reply carrying the version numbers as unsigned bytes (LLRP 1.1) must be read as those numbers.
@@ -24,6 +26,50 @@ theorem consts :
     Gen.msgConsts.lookup "KeepAliveAck" = some tKeepAliveAck ∧
     Gen.Version1_0_1 = 1 ∧ Gen.Version1_1 = 2 ∧ Gen.VersionMin = 1 ∧ Gen.VersionMax = 2 ∧
     Gen.StatusMsgVerUnsupported = 110 ∧ Gen.StatusSuccess = 0 := by decide
+
+/-- **The source is the model.** `Gen.llrp_Client_negotiate`, `Gen.llrp_Client_getSupportedVersion` and
+`Gen.llrp_Message_isResponseTo` are the three functions as go2seq translates them from the source on this run; `SeqGlue.negEnv`
+says what the calls they make mean (the write loop takes a request: an item is appended; the reader reacts to
+GetSupportedVersion with `r1` and to SetProtocolVersion with `r2`; `Converse` is the regenerated `mirrorType` table).
+For every configured maximum above 1.0.1, every client timeout and every pair of reader reactions, the translated source
+returns nil exactly when the model succeeds, hands the write loop exactly the model's items in the model's order
+(GetSupportedVersion, the version change, SetProtocolVersion only when the model sends it) and leaves `Client.version`
+at the model's value — so every theorem below is a statement about the translated source. -/
+theorem src_negotiate (clientMax : Nat) (timeout : Int) (r1 r2 : Reply) (hc : Gen.Version1_0_1 < clientMax)
+    (hw1 : SeqGlue.ReplyWF r1) (hw2 : SeqGlue.ReplyWF r2) :
+    ((Gen.llrp_Client_negotiate SeqGlue.negEnv (SeqGlue.nInit clientMax timeout r1 r2)).2 == GoSeq.GoErr.nil)
+        = (negotiate clientMax r1 r2).result.isSome ∧
+    (Gen.llrp_Client_negotiate SeqGlue.negEnv (SeqGlue.nInit clientMax timeout r1 r2)).1.items = (negotiate clientMax r1 r2).items ∧
+    (Gen.llrp_Client_negotiate SeqGlue.negEnv (SeqGlue.nInit clientMax timeout r1 r2)).1.ver = (negotiate clientMax r1 r2).version :=
+  SeqGlue.src_negotiate clientMax timeout r1 r2 hc hw1 hw2
+
+/-- the classes fed to the model by the classification of raw replies satisfy `src_negotiate`'s side condition -/
+theorem src_classes_wf (step typ : Nat) (payload : Bytes) : SeqGlue.ReplyWF (classify Gen.schema step typ payload) :=
+  SeqGlue.classify_wf _ _ _ _
+
+/-- stated about the translated source alone: with a reader that reports (current, max), the translated `negotiate`
+leaves `Client.version = min(client max, reader max)`, and puts SetProtocolVersion in the write queue iff the reader is
+not already running that version -/
+theorem src_picks_min (clientMax : Nat) (timeout : Int) (cur max : Nat) (r2 : Reply) (hc : Gen.Version1_0_1 < clientMax)
+    (hw2 : SeqGlue.ReplyWF r2) :
+    let out := (Gen.llrp_Client_negotiate SeqGlue.negEnv (SeqGlue.nInit clientMax timeout (.ok cur max) r2)).1
+    out.ver = min clientMax max ∧ (spvItem (min clientMax max) ∈ out.items ↔ cur ≠ min clientMax max) := by
+  have h := src_negotiate clientMax timeout (.ok cur max) r2 hc trivial hw2
+  have hc' : ¬ clientMax ≤ Gen.Version1_0_1 := by omega
+  simp only [h.2.1, h.2.2]
+  unfold negotiate supported
+  simp only [hc', if_false]
+  by_cases h1 : clientMax > max
+  · have hmin : min clientMax max = max := by omega
+    simp only [h1, if_true, hmin]
+    by_cases h2 : cur = max
+    · simp [h2, gsvItem, spvItem, tGetSupportedVersion, tSetProtocolVersion]
+    · by_cases h3 : accepted r2 = true <;> simp [h2, h3, gsvItem, spvItem, tGetSupportedVersion, tSetProtocolVersion]
+  · have hmin : min clientMax max = clientMax := by omega
+    simp only [h1, if_false, hmin]
+    by_cases h2 : cur = clientMax
+    · simp [h2, gsvItem, spvItem, tGetSupportedVersion, tSetProtocolVersion]
+    · by_cases h3 : accepted r2 = true <;> simp [h2, h3, gsvItem, spvItem, tGetSupportedVersion, tSetProtocolVersion]
 
 /-- the GetSupportedVersion frame: version 1.1, first id of the connection, empty payload -/
 def gsvFrame : Frame := ⟨Gen.Version1_1, tGetSupportedVersion, 0, []⟩
